@@ -319,7 +319,7 @@ def work(states, extra):
                 continue
             r, l = req[c], lval[c]
             off = set(tlaset(r['off']))
-            undisp = bool(r['mustErr'] and l['st'] == 'ok' and not (off & set(tlaset(l['vis']))))
+            undisp = bool(r['mustErr'] and l['st'] != 'unknown' and not (off & set(tlaset(l['vis']))))
             key = (c, bool(r['mustErr']), undisp, o['st'], o['ex'], tuple(o['ty']), tuple(o['eff']))
             p = res['pairs'].get(key)
             if p is None:
@@ -502,13 +502,13 @@ def run(v, pid, classes, configs, loader_names):
         raise SystemExit('machinery failure: the unsafe loaders showed no effect on any document: instruments are dead')
     # judgement of the distinct (requirement, observation) pairs by TLC
     keys = sorted(pairs, key=repr)
-    recs = [{'c': k[0], 'mustErr': k[1], 'st': k[3], 'ex': k[4], 'ty': list(k[5]), 'eff': list(k[6])} for k in keys]
+    recs = [{'c': k[0], 'mustErr': k[1], 'undisp': k[2], 'st': k[3], 'ex': k[4], 'ty': list(k[5]), 'eff': list(k[6])} for k in keys]
     verdicts, jstates = trace.judge('Trace_Confine', recs, pid + '_judge')
     for k, (ok, why, _at) in zip(keys, verdicts):
         if ok:
             continue
         p = pairs[k]
-        case = 'structural-use' if (why == 'not rejected' and k[2]) else why
+        case = 'structural-use' if why == 'not rejected (undispatched)' else why
         v.violation({'class': k[0], 'clause': case},
                     {'entry': p['entry'], 'doc': p['doc'], 'observed': {'st': k[3], 'ex': k[4], 'ty': k[5], 'eff': k[6]},
                      'mustErr': k[1], 'count': p['count'], 'config': p['config'],
